@@ -35,6 +35,7 @@ type Ctx struct {
 	inOld   bool
 	ghostNS map[string]Val // extra namespace (callee task ghosts)
 	what    string
+	freshBase string // allocation counter at the start of the call whose contract is being evaluated
 }
 
 func (c *Ctx) errorf(format string, a ...interface{}) Val {
@@ -788,7 +789,11 @@ func (c *Ctx) evalCall(e *Expr) Val {
 		if x.Kind == VSlice {
 			t = x.Arr
 		}
-		return scalar("(> "+t+" "+fe.entryCnt()+")", SBool, boolT)
+		base := fe.entryCnt()
+		if c.freshBase != "" && !c.inOld {
+			base = c.freshBase
+		}
+		return scalar("(> "+t+" "+base+")", SBool, boolT)
 	case "held": // held(lockref)
 		x := c.eval(e.Kids[0])
 		arr := c.heapTermCtx("G_held", arraySort([]string{SInt}, SBool))
@@ -836,6 +841,8 @@ func (c *Ctx) evalCall(e *Expr) Val {
 		x := c.eval(e.Kids[1])
 		arr := c.heapTermCtx("G_"+nm, arraySort([]string{SInt}, SInt))
 		return scalar(sel(arr, x.T), SInt, types.Typ[types.Int])
+	case "emptystrintmap": // Str -> Int ghost array, all zero
+		return scalar("((as const (Array Str Int)) 0)", "(Array Str Int)", nil)
 	case "emptyintmap": // Int -> Int ghost array, all zero
 		return scalar("((as const (Array Int Int)) 0)", "(Array Int Int)", nil)
 	case "store":
